@@ -9,10 +9,12 @@ the wall-clock seam: command / report histories with clock advances from
 
 from __future__ import annotations
 
+import asyncio
 from fractions import Fraction
 import random
 from typing import Any
 
+from sim import wire as W
 from sim.world import Run
 
 ID = "C40"
@@ -37,7 +39,10 @@ def gen(seed: int, tier: str) -> dict[str, Any]:
     rng = random.Random(seed)
     base = rng.choice([0.0, 1.0, 1000.0, 1.0e6, 1.7e9, 2.0e9, rng.uniform(0, 2.0e9)])
     tt = lambda: rng.choice([rng.uniform(0.05, 5.0), rng.uniform(5, 120), float(rng.randint(1, 60)), 25.0, 0.1])
-    cfg = {"epoch": base, "down": round(tt(), 6), "up": round(tt(), 6)}
+    cfg = {"epoch": base, "down": round(tt(), 6), "up": round(tt(), 6),
+           # "cover": the same history driven through a real Cover device (telegram queue, remote values, periodic
+           # updater task) on the virtual-time loop instead of the bare TravelCalculator
+           "mode": "cover" if rng.random() < 0.12 else "tc"}
     ops = []
     n = rng.choice([3, 6, 12, 25])
     for _ in range(n):
@@ -58,10 +63,12 @@ def run(plan: dict[str, Any]) -> dict[str, Any]:
     from xknx.devices.travelcalculator import TravelCalculator
 
     cfg = plan["config"]
-    R = Run(plan)
+    cover_mode = cfg.get("mode", "tc") == "cover"
+    R = Run(plan, max_time=1.0e7) if cover_mode else Run(plan)
     clock = [float(cfg["epoch"])]
     R.env.wall_override = lambda: clock[0]
     tc = TravelCalculator(cfg["down"], cfg["up"])
+    dev: dict[str, Any] = {"cover": None, "xknx": None, "stub": None}
     # ---- reference state
     m: dict[str, Any] = {"last": None, "ts": None, "target": None, "moving": False, "dir": 0}
     prev_q: list[Any] = [None]   # previous query result since the last command
@@ -168,61 +175,131 @@ def run(plan: dict[str, Any]) -> dict[str, Any]:
             R.violate("C40.never-raises", f"{type(exc).__name__}@{fn.__name__}", f"{fn.__name__}{a} raised {exc!r}")
             return False, None
 
-    for idx, op in enumerate(plan["ops"]):
-        a = advance(op)
-        k = op["op"]
-        now = clock[0]
-        abstract.append((k, a))
-        if k == "query":
-            ok, r = call(tc.current_position)
-            if ok:
-                check_query(r, f"op#{idx} query")
-            for fn in (tc.is_traveling, tc.position_reached, tc.is_open, tc.is_closed, tc.is_opening, tc.is_closing):
-                call(fn)
-            continue
-        if k in ("start", "up", "down"):
-            tgt = op.get("p", 0) if k == "start" else (0 if k == "up" else 100)
-            # the estimate at the instant of the command becomes the new known position: judge it first
-            ok, r0 = call(tc.current_position)
-            if ok:
-                check_query(r0, f"op#{idx} before {k}")
-            ok2, _ = call(tc.start_travel if k == "start" else (tc.start_travel_up if k == "up" else tc.start_travel_down),
-                          *((tgt,) if k == "start" else ()))
-            if not (ok and ok2):
-                break
-            if m["last"] is None:
-                m.update(last=tgt, ts=now, target=tgt, moving=False, dir=0)
+    GA_LONG, GA_STOP, GA_POS, GA_POS_STATE = 0x0A01, 0x0A02, 0x0A03, 0x0A04
+
+    async def settle():
+        """Cover mode: let the telegram queue hand the command to the device (the wall clock does not move)."""
+        if cover_mode:
+            await dev["xknx"].telegrams.join()
+            await asyncio.sleep(0)
+
+    async def cmd(kind: str, p: int | None):
+        """Issue one command to the object under test."""
+        if not cover_mode:
+            fn = {"start": tc.start_travel, "up": tc.start_travel_up, "down": tc.start_travel_down, "stop": tc.stop,
+                  "set": tc.set_position, "report": tc.update_position}[kind]
+            return call(fn, *((p,) if p is not None else ()))
+        cover = dev["cover"]
+        try:
+            if kind == "start":
+                await cover.set_position(p)
+            elif kind == "up":
+                await cover.set_up()
+            elif kind == "down":
+                await cover.set_down()
+            elif kind == "stop":
+                await cover.stop()
             else:
-                m.update(last=r0, ts=now, target=tgt, moving=True, dir=1 if tgt > r0 else -1)
-            prev_q[0] = None
-        elif k == "stop":
-            ok, r0 = call(tc.current_position)
+                # a position report of the actuator on the state address
+                raw = bytes((round(p * 255 / 100),))
+                dev["stub"].deliver(W.cemi_ldata(W.L_DATA_IND, 0x1105, GA_POS_STATE, tpci_apci=W.gv_write(raw)), "report")
+            await settle()
+            return True, None
+        except Exception as exc:  # pylint: disable=broad-except
+            R.violate("C40.never-raises", f"{type(exc).__name__}@cover.{kind}", f"cover {kind}({p}) raised {exc!r}")
+            return False, None
+
+    def current_position():
+        return dev["cover"].current_position() if cover_mode else tc.current_position()
+
+    cur = current_position
+
+    async def drive():
+        for idx, op in enumerate(plan["ops"]):
+            before = clock[0]
+            a = advance(op)
+            if cover_mode and clock[0] > before:
+                await asyncio.sleep(min(clock[0] - before, 600.0))   # loop time follows: periodic updater ticks run
+            k = op["op"]
+            now = clock[0]
+            abstract.append((k, a))
+            if k == "query":
+                ok, r = call(cur)
+                if ok:
+                    check_query(r, f"op#{idx} query")
+                obj = dev["cover"] if cover_mode else tc
+                for fn in (obj.is_traveling, obj.position_reached, obj.is_open, obj.is_closed, obj.is_opening, obj.is_closing):
+                    call(fn)
+                continue
+            if k in ("start", "up", "down"):
+                tgt = op.get("p", 0) if k == "start" else (0 if k == "up" else 100)
+                # the estimate at the instant of the command becomes the new known position: judge it first
+                ok, r0 = call(cur)
+                if ok:
+                    check_query(r0, f"op#{idx} before {k}")
+                ok2, _ = await cmd(k, tgt if k == "start" else None)
+                if not (ok and ok2):
+                    break
+                if m["last"] is None:
+                    m.update(last=tgt, ts=now, target=tgt, moving=False, dir=0)
+                else:
+                    m.update(last=r0, ts=now, target=tgt, moving=True, dir=1 if tgt > r0 else -1)
+                prev_q[0] = None
+            elif k == "stop":
+                ok, r0 = call(cur)
+                if ok:
+                    check_query(r0, f"op#{idx} before stop")
+                ok2, _ = await cmd("stop", None)
+                if not (ok and ok2):
+                    break
+                if m["last"] is not None:
+                    m.update(last=r0, target=r0, moving=False, dir=0)
+                prev_q[0] = None
+            elif (k == "set" and not cover_mode) or (k in ("set", "report") and cover_mode and not dev["cover"].is_traveling()):
+                # (cover mode knows reports only: a report to a cover that is not travelling sets the position)
+                ok, _ = await cmd("set", op["p"])
+                if not ok:
+                    break
+                m.update(last=op["p"], ts=now, target=op["p"], moving=False)
+                prev_q[0] = None
+            elif k in ("set", "report"):
+                ok, _ = await cmd("report", op["p"])
+                if not ok:
+                    break
+                m.update(last=op["p"], ts=now)
+                if op["p"] == m["target"]:
+                    m["moving"] = False   # the cover reports that it arrived: the movement is over
+                prev_q[0] = None
+            # every command is followed by an immediate query at the same clock reading (equal readings are legal)
+            ok, r = call(cur)
             if ok:
-                check_query(r0, f"op#{idx} before stop")
-            ok2, _ = call(tc.stop)
-            if not (ok and ok2):
-                break
-            if m["last"] is not None:
-                m.update(last=r0, target=r0, moving=False, dir=0)
-            prev_q[0] = None
-        elif k == "set":
-            ok, _ = call(tc.set_position, op["p"])
-            if not ok:
-                break
-            m.update(last=op["p"], ts=now, target=op["p"], moving=False)
-            prev_q[0] = None
-        elif k == "report":
-            ok, _ = call(tc.update_position, op["p"])
-            if not ok:
-                break
-            m.update(last=op["p"], ts=now)
-            if op["p"] == m["target"]:
-                m["moving"] = False   # the cover reports that it arrived: the movement is over
-            prev_q[0] = None
-        # every command is followed by an immediate query at the same clock reading (equal readings are legal)
-        ok, r = call(tc.current_position)
-        if ok:
-            check_query(r, f"op#{idx} after {k}")
+                check_query(r, f"op#{idx} after {k}")
+
+    if not cover_mode:
+        coro = drive()
+        try:
+            coro.send(None)          # no suspension point is reached in this mode
+            raise RuntimeError("C40 driver suspended in TravelCalculator mode")
+        except StopIteration:
+            pass
+    else:
+        from sim.runworld import make_xknx
+        from xknx.devices import Cover
+        from xknx.telegram import GroupAddress
+
+        async def main():
+            xknx, stub, q = make_xknx(R)
+            cover = Cover(xknx, "cover", group_address_long=GroupAddress(GA_LONG), group_address_stop=GroupAddress(GA_STOP),
+                          group_address_position=GroupAddress(GA_POS), group_address_position_state=GroupAddress(GA_POS_STATE),
+                          travel_time_down=cfg["down"], travel_time_up=cfg["up"], sync_state=False)
+            xknx.devices.async_add(cover)
+            dev.update(cover=cover, xknx=xknx, stub=stub)
+            await xknx.start()
+            await drive()
+            await xknx.stop()
+        R.execute(main())
+        R.check_escapes("C40.never-raises")
+        R.probes["cover_mode_runs"] += 1
     nontrivial = R.probes["query_inside_movement"] + R.probes["query_at_or_after_arrival"] > 0
     R.env.wall_override = None
     return R.result(nontrivial=nontrivial, abstract=abstract)
